@@ -185,4 +185,14 @@ def tailsOp (inp : Json) : Except String Json := do
   | .err => return Json.mkObj [("status", "err")]
   | .panic => return Json.mkObj [("status", "panic")]
 
+def dispatchReg (op : String) (inp : Json) : Option (Except String Json) :=
+  match op with
+  | "reg_history" => some (regHistory inp)
+  | "for_issued" => some (forIssued inp)
+  | "witness_new" => some (witnessNew inp)
+  | "witness_update" => some (witnessUpdate inp)
+  | "merge" => some (mergeOp inp)
+  | "tails" => some (tailsOp inp)
+  | _ => none
+
 end Drv
